@@ -89,3 +89,21 @@ Print Assumptions C15_history_independent.
 Print Assumptions C15_feature_run_frame.
 Print Assumptions C15_old_feature_run_refuted.
 Print Assumptions C15_setvar_is_rebuild.
+
+(* setVar IS THE SOURCE'S (by shape).  translate/gen_setvar.py accepts ArrayEvaluator::setVar and IntervalEvaluator::setVar only in
+   their recorded parsed shape - the row of a known variable is overwritten unconditionally and entirely, the return value only
+   reports whether slot 0 changed, an unknown variable changes nothing - and emits the state transformers of Gen/SetVar_gen.v.
+   For a known variable the array evaluator's transformer is the [set_var] of C15_setvar_is_rebuild, whatever the old row held
+   (in particular when the old slot-0 value compares equal to the new one: +0 / -0), and both transformers are the identity
+   for an unknown variable *)
+From LF Require Gen.SetVar_gen.
+Theorem C15_setvar_from_source :
+  forall (num : Type) (neqb : num -> num -> bool),
+    (forall (v : rows num) s x, fst (SetVar_gen.array_setvar_gen neqb v (Some s) x) = set_var v s x) /\
+    (forall (v : rows num) x, SetVar_gen.array_setvar_gen neqb v None x = (v, false)) /\
+    (forall (lo hi : nat -> num) s x k,
+       fst (fst (SetVar_gen.interval_setvar_gen neqb lo hi (Some s) x)) k = (if Nat.eqb k s then x else lo k) /\
+       snd (fst (SetVar_gen.interval_setvar_gen neqb lo hi (Some s) x)) k = (if Nat.eqb k s then x else hi k)) /\
+    (forall (lo hi : nat -> num) x, SetVar_gen.interval_setvar_gen neqb lo hi None x = (lo, hi, false)).
+Proof. intros num neqb. repeat split. Qed.
+Print Assumptions C15_setvar_from_source.
